@@ -494,6 +494,10 @@ pixman_transform_scale (struct pixman_transform *forward,
     
     if (reverse)
     {
+	/* 1/s does not fit 16.16 for |s| <= 2/65536 (except s == -2/65536) */
+	if ((sx >= -1 && sx <= 2) || (sy >= -1 && sy <= 2))
+	    return FALSE;
+
 	pixman_transform_init_scale (&t, fixed_inverse (sx),
 	                             fixed_inverse (sy));
 	if (!pixman_transform_multiply (reverse, reverse, &t))
